@@ -559,9 +559,9 @@ class Interp:
                 if o + c[1] > end: cells[end] = (slice_val(c[0], c[1], end - o, o + c[1] - end), o + c[1] - end)
 
     def store_raw(s, r, off, v, sz):
-        if isinstance(v, Pack):
+        if isinstance(v, Pack) and not (len(v.parts) == 1 and isinstance(v.parts[0][0], Sl)):
             o = off
-            for pv, n in v.parts: s.store_raw(r, o, pv, n); o += n
+            for pv, n in v.parts: s.store_raw(r, o, Pack([(pv, n)]) if isinstance(pv, Sl) else pv, n); o += n
             return
         c = r.cells.get(off)
         if c is None or c[1] != sz: s.clear_range(r, off, sz)
@@ -905,12 +905,19 @@ class CondVal:
 
 
 def norm_pack(p):
-    # flatten nested packs, merge concrete ints
+    # flatten nested packs, merge adjacent lazy slices of one base, merge concrete ints
     parts = []
     for v, n in p.parts:
         if isinstance(v, Pack): parts.extend(v.parts)
         else: parts.append((v, n))
-    if len(parts) == 1: return parts[0][0]
+    if any(isinstance(v, Sl) for v, _ in parts):
+        out = []
+        for v, n in parts:
+            if out and isinstance(v, Sl) and isinstance(out[-1][0], Sl) and out[-1][0].key() == v.key() and out[-1][0].lo + out[-1][1] == v.lo:
+                out[-1] = (out[-1][0], out[-1][1] + n)
+            else: out.append((v, n))
+        parts = [((v.base, n) if (isinstance(v, Sl) and v.lo == 0 and n == v.bb) else (v, n)) for v, n in out]
+    if len(parts) == 1 and not isinstance(parts[0][0], Sl): return parts[0][0]
     if all(isinstance(v, int) for v, _ in parts):
         r = 0; sh = 0
         for v, n in parts: r |= mask(v, 8 * n) << sh; sh += 8 * n
@@ -928,15 +935,16 @@ def slice_val(v, csz, lo, n):
         out = []; o = 0
         for pv, pn in v.parts:
             a = max(lo, o); b = min(lo + n, o + pn)
-            if a < b: out.append((slice_val(pv, pn, a - o, b - a), b - a))
+            if a < b:
+                if isinstance(pv, Sl): out.append((Sl(pv.base, pv.bb, pv.lo + a - o), b - a))
+                else: out.append((slice_val(pv, pn, a - o, b - a), b - a))
             o += pn
         return norm_pack(Pack(out))
     if isinstance(v, FV):
         if v.r is not None: raise EncodingError('partial read of a real-domain float')
         b = v.bits()
         if isinstance(b, int): return (b >> (8 * lo)) & ((1 << (8 * n)) - 1)
-        return simp(z3.Extract(8 * (lo + n) - 1, 8 * lo, b))
+        return Pack([(Sl(v, csz, lo), n)])
     if isinstance(v, (Ptr, FnPtr)): raise EncodingError('partial read of a pointer')
     if isinstance(v, CondVal): raise EncodingError('partial read of conditionally initialised cell')
-    if z3.is_bool(v): v = bv(v, 8 * csz)
-    return simp(z3.Extract(8 * (lo + n) - 1, 8 * lo, v))
+    return Pack([(Sl(v, csz, lo), n)])
